@@ -172,8 +172,22 @@ def validate(ctx, trace, nscripts):
 # ----------------------------------------------------------------------------- cadence
 def cadence_once(ctx, scale):
     trace = os.path.join(ctx.work, "c09_cadence_%d.ndjson" % scale)
-    ctx.go_test("c09_mon", run="TestCadence$", env={"VERIF_TRACE": trace, "VERIF_C09_SCALE": scale}, timeout=600,
-                count=(scale == 1))
+    dr = ctx.go_test("c09_mon", run="TestCadence$", env={"VERIF_TRACE": trace, "VERIF_C09_SCALE": scale}, timeout=600,
+                     count=False, allow_fail=True)
+    if dr.rc != 0:
+        fn = crash_site(dr.stdout)
+        if fn and fn.startswith("github.com/ipfs/ipfs-cluster"):
+            m = re.search(r'(panic: .*|fatal error: .*)', dr.stdout)
+            short = fn.split("/")[-1]
+            ctx.violation("C09:Cadence:panic:%s" % short,
+                          "the peer process crashed in %s while publishing its metrics (with / without injected publish "
+                          "errors): %s - a dead peer never republishes" % (fn, m.group(1) if m else "panic"),
+                          {"cadence": True, "crash_site": fn, "output_head": dr.stdout[:4000]})
+            return None, None
+        print(dr.stdout[-3000:])
+        raise vcheck.Infra("cadence driver failed (rc=%d)%s" % (dr.rc, ": crash outside ipfs-cluster code (%s)" % fn if fn else ""))
+    if scale == 1:
+        ctx.absorb(dr, "c09_mon", "TestCadence$")
     verdict = os.path.join(ctx.work, "c09_cadence_verdict_%d.ndjson" % scale)
     r = tla.run_tlc(ctx.specdir(), "MonitorCadenceTrace.tla", "MonitorCadenceTrace.cfg", workers=1, timeout=600,
                     heap="2g", env_extra={"TRACE_FILE": trace, "VERDICT_FILE": verdict})
@@ -187,10 +201,37 @@ def cadence_once(ctx, scale):
     return vs, runs
 
 
+def crash_site(out):
+    """Top non-runtime frame of the panicking goroutine (the first goroutine printed after the panic line)."""
+    i = out.find("panic: ")
+    j = out.find("fatal error: ")
+    if i < 0 or (0 <= j < i):
+        i = j
+    if i < 0:
+        return None
+    m = re.search(r'^goroutine \d+ \[[^\]]*\]:\n', out[i:], re.M)
+    if not m:
+        return None
+    stack = out[i + m.end():].split("\n\n")[0]
+    for line in stack.split("\n"):
+        if not line or line[0] in " \t":
+            continue        # file:line rows
+        if line.startswith("created by"):
+            break
+        # full function text up to the argument list (methods contain parentheses: keep them)
+        fn = re.sub(r'\([^()]*\)$', '', line.strip())
+        if fn.startswith("runtime.") or fn.startswith("panic") or fn.startswith("runtime/") or fn.startswith("testing."):
+            continue
+        return fn
+    return None
+
+
 def cadence(ctx):
     history = []
     for attempt, scale in enumerate([1, 2, 4]):
         vs, runs = cadence_once(ctx, scale)
+        if vs is None:
+            return          # crash inside ipfs-cluster code: already a violation
         misses = sum(len(v["misses"]) + len(v["absent"]) + len(v["tail"]) + len(v["stalls"]) for v in vs)
         if misses == 0:
             # the scripted error bursts must really have happened (and been survived)
@@ -303,7 +344,19 @@ def run(ctx):
     ctx.log("generated %d scripts (%d steps)" % (len(scripts), sum(len(s["steps"]) for s in scripts)))
     # R
     trace = os.path.join(ctx.work, "c09_trace.ndjson")
-    dr = ctx.go_test("c09_mon", run="TestReplay$", infile=inp, env={"VERIF_TRACE": trace}, timeout=3000)
+    dr = ctx.go_test("c09_mon", run="TestReplay$", infile=inp, env={"VERIF_TRACE": trace}, timeout=3000,
+                     count=False, allow_fail=True)
+    if dr.rc != 0:
+        fn = crash_site(dr.stdout)
+        if fn and fn.startswith("github.com/ipfs/ipfs-cluster"):
+            m = re.search(r'(panic: .*|fatal error: .*)', dr.stdout)
+            ctx.violation("C09:panic:%s" % fn.split("/")[-1],
+                          "the monitor crashed the process in %s while a generated history was replayed: %s" % (
+                              fn, m.group(1) if m else "panic"), {"crash_site": fn, "output_head": dr.stdout[:4000]})
+            return
+        print(dr.stdout[-3000:])
+        raise vcheck.Infra("replay driver failed (rc=%d)" % dr.rc)
+    ctx.absorb(dr, "c09_mon", "TestReplay$")
     # V
     validate(ctx, trace, len(scripts))
     unresp = dr.extra.get("scripts_monitor_unresponsive", 0)
